@@ -131,7 +131,7 @@ func (s *JoiningSource) fileSourceHandler(blk *pbbstream.Block, obj interface{})
 		return nil
 	}
 
-	if blk.Number >= s.lowestLiveBlockNum {
+	if blk.Number >= s.lowestLiveBlockNum && isFirstDelivery(obj) {
 		if s.cursorIsTarget {
 			if src := s.liveSourceFactory.SourceThroughCursor(blk.Number, s.cursor, s.handler); src != nil {
 				s.liveSource = src
@@ -149,4 +149,15 @@ func (s *JoiningSource) fileSourceHandler(blk *pbbstream.Block, obj interface{})
 	}
 
 	return s.handler.ProcessBlock(blk, obj)
+}
+
+// isFirstDelivery tells whether the file source is delivering this block for the first time (step
+// new or new+irreversible). The undo and irreversible notifications that a cursor resolution emits for
+// blocks the consumer already holds must reach the handler: joining the live source on one of them
+// dropped the undo, or made the live source deliver again blocks the consumer already had.
+func isFirstDelivery(obj interface{}) bool {
+	if stepable, ok := obj.(Stepable); ok {
+		return stepable.Step().Matches(StepNew)
+	}
+	return true
 }
